@@ -371,6 +371,7 @@ def run_opt_case(case, stats):
         root = rels[id(base)]
         fixed_rel = env.leafrels[final[2][1]] if final[0] == "join" else None
         seen_sql = 0
+        processed_budget = 3
         for pref, bits in itertools.product((0, 1, 2) if final[0] != "join" else (0,), range(8 if final[0] != "join" else 4)):
             o = dict(backtrack=bool(bits & 1), transfer=bool(bits & 2))
             if final[0] != "join":
@@ -406,6 +407,24 @@ def run_opt_case(case, stats):
                 if env.sql.conform(res) is not res:
                     raise Violation("conform-not-idempotent", f"conform(r) is not r for the relation returned by {final[0]} with {label} on {fmt(base, leaves)}: {res}")
             stats.c["markers_checked"] += check_tree_markers(res, f"{final[0]} with {label} on {fmt(base, leaves)}")
+            if processed_budget and any(isinstance(n, Select) for n in lib_nodes(res)) and any(isinstance(n, Transfer) for n in lib_nodes(res)):
+                # the tree Processor.process returns (transfers re-created with payloads, markers re-applied on top) is
+                # what gets compiled: its SELECT markers must be coherent as well, and conforming it must be a no-op
+                processed_budget -= 1
+                from vf.core.env import DatabaseError
+                from vf.core.proc import make_processor
+
+                try:
+                    done = make_processor(env).process(res)
+                except DatabaseError:
+                    done = None
+                except Exception:
+                    done = None  # faithfulness of process() is C07's subject
+                if done is not None:
+                    what = f"Processor.process of the result of {final[0]} with {label} on {fmt(base, leaves)}"
+                    stats.c["processed_markers_checked"] += check_tree_markers(done, what)
+                    if done.engine is env.sql and env.sql.conform(done) is not done:
+                        raise Violation("conform-not-idempotent", f"conform(r) is not r for {what}: {str(done)[:300]}")
         stats.c["opt:results-in-sql"] += seen_sql
         if seen_sql:
             stats.mark_nontrivial(codec.digest(case), lambda: describe(case), cls=f"opt/{final[0]}")
